@@ -2,3 +2,5 @@ import GabiModel.Num
 import GabiModel.Sha256
 import GabiModel.Der
 import GabiModel.HashTool
+import GabiModel.Generated
+import GabiModel.MathUtil
